@@ -107,6 +107,9 @@ fn check_rest(case: u64, p: &Plan, first: M, rx: &IpcReceiver<M>, kept: &[Option
     }
 }
 
+/// every name any one-shot server of this process ever returned
+static ALL_NAMES: std::sync::Mutex<BTreeSet<String>> = std::sync::Mutex::new(BTreeSet::new());
+
 pub fn run_case(ctx: &Ctx, sz: &Sizes, case: u64) {
     let rep = &ctx.rep;
     let mut r = Rng::derive(ctx.seed, 0xc08, case);
@@ -130,6 +133,19 @@ pub fn run_case(ctx: &Ctx, sz: &Sizes, case: u64) {
     let distinct: BTreeSet<&String> = names.iter().collect();
     if distinct.len() != names.len() {
         problems.push(("names-collide".into(), json!({"servers": nsrv, "distinct": distinct.len()})));
+    }
+    // "every server gets a distinct name" also holds over time: a name handed out again after its first
+    // server finished lets a late client of the old server reach the new one
+    {
+        let mut all = ALL_NAMES.lock().unwrap();
+        let reused: Vec<&String> = distinct.iter().filter(|n| all.contains(n.as_str())).cloned().collect();
+        if !reused.is_empty() {
+            problems.push(("name-of-finished-server-handed-out-again".into(), json!({"reused": reused.len(), "example": reused[0], "names_seen_in_this_process": all.len()})));
+        }
+        for n in &names {
+            all.insert(n.clone());
+        }
+        rep.stat_max("names_compared_over_time", all.len() as i64);
     }
     if is_os() {
         let now = tmp_entries();
@@ -476,6 +492,7 @@ pub fn run(ctx: &Ctx) {
     // warm-up: lazily created library state (send-buffer probe) must not count as a leak
     {
         let (s, name) = must("server", IpcOneShotServer::<M>::new());
+        ALL_NAMES.lock().unwrap().insert(name.clone());
         let tx: IpcSender<M> = IpcSender::connect(name).unwrap();
         tx.send((0, Blob(vec![]), None)).unwrap();
         let _ = s.accept().unwrap();
